@@ -13,6 +13,20 @@ from ..model import AnalysisError, src, callee_name, dotted, walk_local, calls_i
 from ..callgraph import CallGraph
 from ..selftest import Seed
 
+def ancestors_(node):
+    p = getattr(node, "_parent", None)
+    while p is not None:
+        yield p
+        p = getattr(p, "_parent", None)
+
+
+def _is_new(g):
+    """g is not a function of the reviewed inventory (a helper somebody extracted)"""
+    from ..normalize import inventory
+    inv = inventory()
+    return inv is not None and g.fq not in inv
+
+
 META = {
     "technique": "type-flow of deferred nodes over the resolved call graph (source: literal reader, sanitiser: evaluation, sink: system functions returning reader output as data); writer/reader delimiter table agreement, reader entry-point argument flow, token-form table agreement, format-spec precision rule of the real writer, identity rule of string Form",
     "level_text": "Static decision of one necessary condition of the round trip: which reader-derived values can leave .rs/.r as data without being evaluated. It finds the defect the property text itself reports (a written dictionary reads back as a function-call object) from the code shape; value-level round-tripping is declared out of reach for static analysis.",
@@ -111,7 +125,8 @@ def check(ctx):
     ctx.floor("C11-R1", "system functions returning reader output as data", sinks, 2)
     # ---- R2
     wd = repo.fn("writer:kg_write_dict")
-    consts = [c.value for c in ast.walk(wd.node) if isinstance(c, ast.Constant) and isinstance(c.value, str)]
+    wd_nodes = [wd.node] + [g.node for c in calls_in(wd.node) for g in [wd.module.funcs.get(callee_name(c) or "")] if g is not None and g.node is not wd.node and _is_new(g)]
+    consts = [c.value for nd in wd_nodes for c in ast.walk(nd) if isinstance(c, ast.Constant) and isinstance(c.value, str)]
     ctx.instance("C11-R2", wd.fq)
     ctx.ob("C11-R2", wd.fq, "the writer opens a dictionary with ':{' and closes it with '}'", ":{" in consts and "}" in consts, node=wd.node, construct="writer dictionary delimiters")
     kr = repo.fn("parser:kg_read")
@@ -279,7 +294,9 @@ def _token_forms(ctx, repo):
     def consts(fq):
         f = repo.fn(fq)
         out = []
-        for n in ast.walk(f.node):
+        # the writer function and the NEW helpers it calls directly (an extracted emitter is part of it; reviewed functions such as kg_write are not)
+        nodes = [f.node] + [g.node for c in calls_in(f.node) for g in [f.module.funcs.get(callee_name(c) or "")] if g is not None and g.node is not f.node and _is_new(g)]
+        for n in [x for nd in nodes for x in ast.walk(nd)]:
             if isinstance(n, ast.JoinedStr):
                 out.append("".join(v.value if isinstance(v, ast.Constant) else "{}" for v in n.values))
             elif isinstance(n, ast.Constant) and isinstance(n.value, str) and len(n.value) <= 3:
@@ -335,7 +352,9 @@ def _token_forms(ctx, repo):
            msg="writer and reader disagree on how a double quote inside a string is represented")
     # list elements are separated by blanks, which the list reader skips
     wl = repo.fn("writer:kg_write_list")
-    sep = any(isinstance(c, ast.Call) and callee_name(c) == "join" and isinstance(c.func.value, ast.Constant) and c.func.value.value == " " for fn_ in with_callees(wl) for c in ast.walk(fn_))
+    sep = any(isinstance(c, ast.Call) and callee_name(c) == "join" and isinstance(c.func.value, ast.Constant) and c.func.value.value == " " for fn_ in with_callees(wl) for c in ast.walk(fn_)) or \
+        any(isinstance(c, ast.Call) and callee_name(c) in ("append", "write") and len(c.args) == 1 and isinstance(c.args[0], ast.Constant) and c.args[0].value == " " and
+            any(isinstance(p_, (ast.For, ast.While)) for p_ in ancestors_(c)) for fn_ in with_callees(wl) for c in ast.walk(fn_))      # pieces pushed one by one: a blank between elements
     rl = repo.fn("parser:read_list")
     skips = sum(1 for c in calls_in(rl.node) if callee_name(c) == "skip") >= 2
     ctx.ob("C11-R4", wl.fq, "list elements are written blank-separated and the list reader skips blanks between elements", sep and skips, node=wl.node, construct="list separator agreement")
